@@ -4,8 +4,7 @@ import SfntV.Model.TotalChainCtx
 Line protocol of the `tmchainctx.` verdict op (property C02, group `chainctx`):
 `tmchainctx.read bytes=<hex> pos=<n>` → the outcome of the checked-index model of
 `readGsubSubtable` for lookup type 6 (`readChainedSeqContext1/2/3`):
-`ok:<canonical subtable>` | `err:<class>` | `panic` | `skip` (the uint16 key wrapped to a reader
-outside this group).
+`ok:<canonical subtable>` | `err:<class>` | `panic`.
 Canonical values: coverage `s-e:i` runs, class tables `s-e:c` runs, coverage sets `s-e` runs (as in
 `tmotl.`); a rule set is `-` (nil) or its rules joined by `/` (`=` for a set without rules); a rule is
 `b<list>i<list>l<list>a<list>`; a list is its numbers joined by `.`, or `#<len>~<hash>` beyond 32
@@ -73,7 +72,7 @@ def showSub : ChainCtx.Sub → String
 
 def showOut : Outcome (ChainCtx.Sub × Cost) → String
   | .ok (v, _) => "ok:" ++ showSub v
-  | .err e => if e == "other-reader" then "skip" else "err:" ++ e
+  | .err e => "err:" ++ e
   | .panic _ => "panic"
 
 def handle (op : String) (fs : List (String × String)) : String :=
